@@ -7,17 +7,26 @@
 (*                         (engine/post_tx_queue.py): send start_task /    *)
 (*                         run_action, check_and_complete [own tx],        *)
 (*                         schedule_if_needed [own tx]                     *)
-(*   DeliverStartTask      task_handler.run_task                           *)
+(*   DeliverStartTask      task_handler.run_task (first run: _run_new;     *)
+(*                         otherwise _run_existing)                        *)
 (*   DeliverRunAction      the executor runs the action, result message    *)
 (*   DeliverActionComplete action_handler.on_action_complete ->            *)
 (*                         Task.complete -> routing -> dispatch            *)
 (*   JobCapture / JobInvoke / JobDelete   the three separately committed   *)
 (*                         steps of a scheduler job (_refresh_task_state,  *)
 (*                         _check_and_fix_integrity)                       *)
+(*   OpPause / OpResume / OpStop(s)       operator commands                *)
+(*                         (DefaultEngine.pause/resume/stop_workflow)      *)
+(*   Dup(m)                redelivery of an already delivered message      *)
 (*   Tick                  the clock jumps to the next due time            *)
-(* It models what the pinned code does, including the dedupe rule of join  *)
-(* refreshes ("only jobs not yet captured count") and the re-arming of a   *)
-(* join by Task.defer.                                                     *)
+(* It models what the pinned code does, defects included: the dedupe rule  *)
+(* of join refreshes ("only jobs not yet captured count"), the re-arming   *)
+(* of a join by Task.defer (KF-C04-1), resume dispatching a join without   *)
+(* scheduling its refresh (KF-C10-1), resume re-dispatching IDLE tasks     *)
+(* whose start message is still in flight (KF-C10-5), stop(ERROR) ignored  *)
+(* on a PAUSED execution (KF-C11-1), resume with only noop commands        *)
+(* (KF-C10-8).  The history record `hist` names these situations so that   *)
+(* the property formulas can be checked modulo the known findings.         *)
 (*                                                                         *)
 (* The definition D is a record (tasks, inbound, order) produced by the    *)
 (* workflow generator together with the YAML given to mistral; guards are  *)
@@ -29,24 +38,31 @@
 (* Deliberate abstractions: expressions (guard table, symbolic results),   *)
 (* data flow, notifications; one execution per task name (programs in      *)
 (* which a non-join task is triggered twice are outside this module);      *)
-(* policies, with-items, sub-workflows and operator commands are not       *)
-(* modelled here yet (EngineProps judges those on real runs).              *)
+(* policies, with-items, sub-workflows and rerun are not modelled here yet *)
+(* (EngineProps judges those on real runs).                                *)
 (***************************************************************************)
 EXTENDS Integers, FiniteSets, Sequences, TLC
 
+CONSTANTS OpBudget,    \* how many operator commands may be issued (model checking bound)
+          OpKinds,     \* which of "pause", "resume", "stop" the operator may issue
+          DupBudget,   \* how many redeliveries may happen
+          NoopOps      \* TRUE: operator commands without effect (pause of a PAUSED execution, resume of a RUNNING one, any
+                       \* command on a finished one) are steps too - needed to follow recorded runs, wasteful when model checking
+
 VARIABLES D,        \* the abstract definition (never changes)
-          wf,       \* state of the root execution: "none", "RUNNING", "SUCCESS", "ERROR"
+          wf,       \* state of the root execution: "none", "RUNNING", "PAUSED", "SUCCESS", "ERROR", "CANCELLED"
           tk,       \* [task name -> [state, next, processed, errHandled]]   state "none" = no row
-          ax,       \* [task name -> state of its action execution]  "none" | "RUNNING" | "SUCCESS" | "ERROR"
-          msgs,     \* in-flight RPC messages: set of [id, m, t, res]
-          ptq,      \* post-commit batches: set of [id, ops]   (ops: sequence of [op, t])
+          ax,       \* [task name -> sequence of the states of its action executions, in creation order]
+          msgs,     \* in-flight RPC messages: set of [id, m, t, k, res, fr, w]
+          seen,     \* delivered messages (without id): candidates for redelivery
+          ptq,      \* post-commit batches: set of [id, ops]   (ops: sequence of [op, t, k, fr, w])
           jobs,     \* scheduler job rows: set of [id, func, t, at, phase]   phase "new" | "captured" | "ran"
-          now, nid,
-          starts,   \* [task name -> number of action executions started]  (history)
-          rearmed,  \* a started / finished join was set back to WAITING by Task.defer (history, known finding KF-C04-1)
+          backlog,  \* commands saved in the execution's runtime context while it is PAUSED (sequence of [c, t])
+          now,
+          hist,     \* history of the run: situations of the known findings, budgets used
           ev        \* last event (history)
-vars == <<D, wf, tk, ax, msgs, ptq, jobs, now, nid, starts, rearmed, ev>>
-view == <<D, wf, tk, ax, msgs, ptq, jobs, now, starts, rearmed>>
+vars == <<D, wf, tk, ax, msgs, seen, ptq, jobs, backlog, now, hist, ev>>
+view == <<D, wf, tk, ax, msgs, seen, ptq, jobs, backlog, now, hist>>
 
 Final   == {"SUCCESS", "ERROR", "CANCELLED"}
 Done(s) == s \in Final \cup {"SKIPPED"}
@@ -57,24 +73,42 @@ IntegrityDelay == 10    \* workflow_handler.start_workflow: _schedule_check_and_
 NoRow == [state |-> "none", next |-> {}, processed |-> FALSE, errHandled |-> FALSE]
 Row(s) == [state |-> s, next |-> {}, processed |-> FALSE, errHandled |-> FALSE]
 AnyPerm(S) == {s \in [1..Cardinality(S) -> S] : \A a, b \in 1..Cardinality(S) : a # b => s[a] # s[b]}
+SeqOf(S) == CHOOSE s \in AnyPerm(S) : TRUE
+Permute(s, pm) == [i \in 1..Len(s) |-> s[pm[i]]]
+Fresh(used) == CHOOSE i \in 1..(Cardinality(used) + 1) : i \notin used
+Ids(S) == {x.id : x \in S}
+H0 == [rearmed |-> FALSE,     \* a started / finished join was set back to WAITING by Task.defer (KF-C04-1)
+       resumeJoin |-> {},     \* joins created or re-armed by the dispatch inside resume_workflow (KF-C10-1 / KF-C10-6)
+       noopResume |-> FALSE,  \* a resume found only commands without effect to dispatch (KF-C10-8)
+       existingSent |-> FALSE,\* resume re-dispatched an IDLE task as RunExistingTask (KF-C10-5)
+       stopIgnored |-> FALSE, \* stop(ERROR) on a PAUSED execution returned without effect (KF-C11-1)
+       paused |-> FALSE,      \* a pause was requested (operator or pause command)
+       multi |-> FALSE,       \* a second execution of a plain task was requested: outside this model (one row per task name)
+       ops |-> 0, dups |-> 0]
 
 (* ---- language helpers ---- *)
 Fired(edges) == SelectSeq(edges, LAMBDA e : e.fires)
 \* commands computed when task t completes with state s: on-error | on-success, then on-complete
-NextCmds(t, s) ==
-  (IF s = "ERROR" THEN Fired(D.tasks[t].err) ELSE IF s = "SUCCESS" THEN Fired(D.tasks[t].succ) ELSE <<>>)
-     \o (IF s \in {"SUCCESS", "ERROR"} THEN Fired(D.tasks[t].comp) ELSE <<>>)
+NextTargets(t, s) ==
+  LET c == (IF s = "ERROR" THEN Fired(D.tasks[t].err) ELSE IF s = "SUCCESS" THEN Fired(D.tasks[t].succ) ELSE <<>>)
+             \o (IF s \in {"SUCCESS", "ERROR"} THEN Fired(D.tasks[t].comp) ELSE <<>>)
+  IN [i \in 1..Len(c) |-> c[i].to]
+Cmd(to) == IF to \in Names THEN [c |-> "run", t |-> to] ELSE [c |-> to, t |-> ""]     \* to in fail / succeed / pause / noop
+Cmds(t, s) == LET ts == NextTargets(t, s) IN [i \in 1..Len(ts) |-> Cmd(ts[i])]
 ErrHandled(t, s) == s = "ERROR" /\ Fired(D.tasks[t].err) # <<>>
-Targets(cmds) == [i \in 1..Len(cmds) |-> cmds[i].to]
-\* dispatcher._rearrange_commands: noop dropped; everything after the first state-changing command dropped
-NoNoop(c) == SelectSeq(c, LAMBDA x : x # "noop")
-FirstState(c) == LET S == {i \in 1..Len(c) : c[i] \in {"fail", "succeed", "pause"}}
+\* dispatcher._rearrange_commands: noop dropped; the task commands before the first state-changing command are sorted
+\* (inconsistent comparator: the resulting order is left open); everything after a fail / succeed is dropped; what
+\* follows a pause is kept (it goes to the backlog)
+StateCmd(c) == c.c \in {"fail", "succeed", "pause"}
+FirstState(c) == LET S == {i \in 1..Len(c) : StateCmd(c[i])}
                  IN IF S = {} THEN 0 ELSE CHOOSE i \in S : \A j \in S : i <= j
-Rearranged(c0) ==
-  LET c == NoNoop(c0)
+Arrangements(c0) ==
+  LET c == SelectSeq(c0, LAMBDA x : x.c # "noop")
       i == FirstState(c)
-  IN IF i = 0 THEN [tasks |-> c, cmd |-> "none"]
-     ELSE [tasks |-> SubSeq(c, 1, i - 1), cmd |-> c[i]]
+  IN IF i = 0 THEN {Permute(c, pm) : pm \in AnyPerm(1..Len(c))}
+     ELSE IF i = 1 /\ c[1].c # "pause" THEN {<<c[1]>>}
+     ELSE {Permute(SubSeq(c, 1, i - 1), pm) \o <<c[i]>> \o (IF c[i].c = "pause" THEN SubSeq(c, i + 1, Len(c)) ELSE <<>>)
+             : pm \in AnyPerm(1..(i - 1))}
 
 (* ---- join logic (workflow/direct_workflow.py) ---- *)
 Inbound(t) == Rng(D.inbound[t])
@@ -101,68 +135,107 @@ JoinLogical(j, tks) ==
 \* through everything that is not an existing join
 Outbound(t) == {e.to : e \in Rng(D.tasks[t].succ) \cup Rng(D.tasks[t].err) \cup Rng(D.tasks[t].comp)} \cap Names
 RECURSIVE Walk(_, _, _)
-Walk(front, seen, tks) ==
+Walk(front, visited, tks) ==
   IF front = {} THEN {}
   ELSE LET x == CHOOSE y \in front : TRUE
            rest == front \ {x}
-       IN IF x \in seen THEN Walk(rest, seen, tks)
-          ELSE IF IsJoin(x) /\ tks[x].state # "none" THEN {x} \cup Walk(rest, seen \cup {x}, tks)
-          ELSE Walk(rest \cup Outbound(x), seen \cup {x}, tks)
+       IN IF x \in visited THEN Walk(rest, visited, tks)
+          ELSE IF IsJoin(x) /\ tks[x].state # "none" THEN {x} \cup Walk(rest, visited \cup {x}, tks)
+          ELSE Walk(rest \cup Outbound(x), visited \cup {x}, tks)
 Affected(t, tks) == Walk(Outbound(t), {t}, tks)
 
-(* ---- Task.complete + dispatch_workflow_commands + _check_affected_tasks ---- *)
-\* rows created / re-armed by dispatching RunTask commands for the names in ts
-Dispatched(tks, ts) ==
-  [x \in Names |->
-     IF x \in ts /\ ~IsJoin(x) THEN Row("IDLE")
-     ELSE IF x \in ts /\ IsJoin(x)
-          THEN (IF tks[x].state = "none" THEN Row("WAITING") ELSE [tks[x] EXCEPT !.state = "WAITING"])   \* Task.defer
-          ELSE tks[x]]
-\* The set of possible outcomes [tk, wf, ops]: the order of the task commands (dispatcher._rearrange_commands
-\* sorts them with an inconsistent comparator: non-waiting commands first in an implementation-defined order,
-\* then the join commands by unique key) and of the schedule_if_needed operations (a Python set) is left
-\* open and inferred when validating traces.
-Completion(t, s, tks, w) ==
-  LET tos   == Targets(NextCmds(t, s))
-      nexts == {x \in Rng(tos) : x \in Names}
-      tk1   == [tks EXCEPT ![t] = [state |-> s, next |-> nexts, processed |-> (w # "PAUSED"), errHandled |-> ErrHandled(t, s)]]
-      check == IF nexts = {} THEN <<[op |-> "check", t |-> ""]>> ELSE <<>>
-      r     == Rearranged(tos)
-      plain == {x \in Rng(r.tasks) : x \in Names /\ ~IsJoin(x)}
-      joins == {x \in Rng(r.tasks) : x \in Names /\ IsJoin(x)}
-      tk2   == Dispatched(tk1, plain \cup joins)
-      w2    == IF r.cmd = "fail" THEN "ERROR" ELSE IF r.cmd = "succeed" THEN "SUCCESS" ELSE w
-      aff   == IF w2 \in Final THEN {} ELSE Affected(t, tk2)
-      tseq  == SelectSeq(r.tasks, LAMBDA x : x \in Names)        \* one RunTask command per clause entry (duplicates kept)
-      Send(pm) == [i \in 1..Len(tseq) |-> [op |-> "start_task", t |-> tseq[pm[i]]]]
-      Refr(seq) == [i \in 1..Len(seq) |-> [op |-> "sched_refresh", t |-> seq[i]]]
-  IN IF w = "PAUSED" THEN {[tk |-> tk1, wf |-> w, ops |-> <<>>]}
-     ELSE IF w \in Final THEN {[tk |-> tk1, wf |-> w, ops |-> check]}       \* the dispatcher stops on a completed workflow
-     ELSE {[tk |-> tk2, wf |-> w2, ops |-> check \o Send(pm) \o Refr(ap)] : pm \in AnyPerm(1..Len(tseq)), ap \in AnyPerm(aff)}
+(* ---- the transaction state threaded through the handlers ----                                  *)
+(* S = [wf, tk, ax, backlog, ops, hist]: ops = the post-commit operations registered so far, in order *)
+Op(o, t) == [op |-> o, t |-> t, k |-> 0, fr |-> TRUE, w |-> FALSE]
+Cur == [wf |-> wf, tk |-> tk, ax |-> ax, backlog |-> backlog, ops |-> <<>>, hist |-> hist]
 
-Rearms(tk0, tk1) == \E x \in Names : IsJoin(x) /\ tk0[x].state \notin {"none", "WAITING"} /\ tk1[x].state = "WAITING"
-NewBatch(ops) == IF ops = <<>> THEN ptq ELSE ptq \cup {[id |-> nid, ops |-> ops]}
+\* Task.create_new for a RunTask command: a plain task gets a new IDLE row; a join is deferred (Task.defer)
+Created(tks, t) ==
+  IF ~IsJoin(t) THEN (IF tks[t].state = "none" THEN [tks EXCEPT ![t] = Row("IDLE")] ELSE tks)
+  ELSE IF tks[t].state = "none" THEN [tks EXCEPT ![t] = Row("WAITING")]
+  ELSE [tks EXCEPT ![t].state = "WAITING"]
+RearmsOne(tks, t) == IsJoin(t) /\ tks[t].state \notin {"none", "WAITING"}
+
+\* one command in dispatcher._process_commands
+Step1(S, c, inResume) ==
+  IF S.wf \in Final THEN S
+  ELSE IF S.wf = "PAUSED" THEN [S EXCEPT !.backlog = Append(@, c)]
+  ELSE CASE c.c = "run" ->
+              [S EXCEPT !.tk = Created(@, c.t),
+                        !.ops = Append(@, [Op("start_task", c.t) EXCEPT !.w = IsJoin(c.t)]),
+                        !.hist.rearmed = @ \/ RearmsOne(S.tk, c.t),
+                        !.hist.multi = @ \/ (~IsJoin(c.t) /\ S.tk[c.t].state # "none"),
+                        !.hist.resumeJoin = IF inResume /\ IsJoin(c.t) /\ S.tk[c.t].state # "WAITING" THEN @ \cup {c.t} ELSE @]
+         [] c.c = "existing" ->
+              [S EXCEPT !.ops = Append(@, [Op("start_task", c.t) EXCEPT !.fr = FALSE, !.w = (S.tk[c.t].state = "WAITING")]),
+                        !.hist.existingSent = TRUE]
+         [] c.c = "fail"    -> [S EXCEPT !.wf = "ERROR"]
+         [] c.c = "succeed" -> [S EXCEPT !.wf = "SUCCESS"]
+         [] c.c = "pause"   -> [S EXCEPT !.wf = "PAUSED", !.hist.paused = TRUE]
+         [] OTHER -> S
+RECURSIVE Fold(_, _, _)
+Fold(S, cs, inResume) == IF cs = <<>> THEN S ELSE Fold(Step1(S, Head(cs), inResume), Tail(cs), inResume)
+\* dispatcher.dispatch_workflow_commands: first the backlog (popped), then the new commands
+Dispatch(S, cmds, inResume) ==
+  LET S0 == [S EXCEPT !.backlog = <<>>]
+      afterBacklog == IF S.backlog = <<>> THEN {S} ELSE {Fold(S0, a, inResume) : a \in Arrangements(S.backlog)}
+  IN IF cmds = <<>> THEN afterBacklog
+     ELSE UNION {{Fold(S1, a, inResume) : a \in Arrangements(cmds)} : S1 \in afterBacklog}
+
+\* Workflow.check_and_complete
+Incomplete(s) == s \in {"IDLE", "RUNNING", "WAITING", "DELAYED", "PAUSED"}
+Checked(w, tks) ==
+  IF w # "RUNNING" \/ \E x \in Names : Incomplete(tks[x].state) THEN w
+  ELSE IF \E x \in Names : tks[x].state = "CANCELLED" THEN "CANCELLED"
+  ELSE IF \E x \in Names : tks[x].state = "ERROR" /\ ~tks[x].errHandled THEN "ERROR" ELSE "SUCCESS"
+
+\* Task.complete(state): ignored for a completed task; next tasks and error handling are recorded; while the
+\* execution is PAUSED nothing is dispatched and the task stays unprocessed; a completed execution routes nowhere
+Complete(S, t, s) ==
+  IF Done(S.tk[t].state) THEN {S}
+  ELSE LET cmds  == IF S.wf \in Final THEN <<>> ELSE Cmds(t, s)
+           nexts == {cmds[i].t : i \in {j \in 1..Len(cmds) : cmds[j].c = "run"}}
+           tk1   == [S.tk EXCEPT ![t] = [state |-> s, next |-> nexts, processed |-> (S.wf # "PAUSED"),
+                                         errHandled |-> (ErrHandled(t, s) /\ S.wf \notin Final)]]
+       IN IF S.wf = "PAUSED" THEN {[S EXCEPT !.tk = tk1]}
+          ELSE Dispatch([S EXCEPT !.tk = tk1, !.ops = IF nexts = {} THEN Append(@, Op("check", "")) ELSE @], cmds, FALSE)
+\* task_handler._check_affected_tasks: one schedule_if_needed per existing downstream join (a Python set: any order)
+CheckAffected(S, t) ==
+  IF ~Done(S.tk[t].state) \/ S.wf \in Final THEN {S}
+  ELSE {[S EXCEPT !.ops = @ \o [i \in 1..Len(ap) |-> Op("sched_refresh", ap[i])]] : ap \in AnyPerm(Affected(t, S.tk))}
+CompleteAndCheck(S, t, s) == UNION {CheckAffected(S1, t) : S1 \in Complete(S, t, s)}
+\* RegularTask._schedule_actions: a new action execution and its run_action request
+StartAction(S, t) ==
+  [S EXCEPT !.ax[t] = Append(@, "RUNNING"), !.ops = Append(@, [Op("run_action", t) EXCEPT !.k = Len(S.ax[t]) + 1])]
+
+(* ---- committing a transaction ---- *)
+NewBatch(ops) == IF ops = <<>> THEN ptq ELSE ptq \cup {[id |-> Fresh(Ids(ptq)), ops |-> ops]}
+Commit(S) == /\ wf' = S.wf /\ tk' = S.tk /\ ax' = S.ax /\ backlog' = S.backlog /\ hist' = S.hist
+             /\ ptq' = NewBatch(S.ops)
+NewJob(J, func, t, at) == J \cup {[id |-> Fresh(Ids(J)), func |-> func, t |-> t, at |-> at, phase |-> "new"]}
+Msg(m, t, k, res, fr, w) == [m |-> m, t |-> t, k |-> k, res |-> res, fr |-> fr, w |-> w]
+WithId(M, c) == [id |-> Fresh(Ids(M)), m |-> c.m, t |-> c.t, k |-> c.k, res |-> c.res, fr |-> c.fr, w |-> c.w]
+NoId(m) == Msg(m.m, m.t, m.k, m.res, m.fr, m.w)
+Remember(m) == IF DupBudget > hist.dups THEN seen \cup {NoId(m)} ELSE {}
 
 (* ---- actions ---- *)
 Init == /\ wf = "none"
         /\ tk = [x \in Names |-> NoRow]
-        /\ ax = [x \in Names |-> "none"]
-        /\ msgs = {} /\ ptq = {} /\ jobs = {} /\ now = 0 /\ nid = 1
-        /\ starts = [x \in Names |-> 0] /\ rearmed = FALSE
+        /\ ax = [x \in Names |-> <<>>]
+        /\ msgs = {} /\ seen = {} /\ ptq = {} /\ jobs = {} /\ backlog = <<>> /\ now = 0
+        /\ hist = H0
         /\ ev = [a |-> "Init"]
 
 StartTasks == {x \in Names : Inbound(x) = {} /\ D.tasks[x].wf = D.name}
 StartWorkflow ==
   /\ wf = "none"
-  /\ wf' = "RUNNING"
-  /\ tk' = Dispatched(tk, StartTasks)
   \* (the order in which the start tasks are dispatched is the iteration order of the specification's task
   \*  dictionary: left open here, inferred from the trace)
-  /\ \E pp \in AnyPerm({x \in StartTasks : ~IsJoin(x)}), jp \in AnyPerm({x \in StartTasks : IsJoin(x)}) :
-        ptq' = NewBatch([i \in 1..Len(pp \o jp) |-> [op |-> "start_task", t |-> (pp \o jp)[i]]])
-  /\ jobs' = jobs \cup {[id |-> nid + 1, func |-> "integrity", t |-> "", at |-> now + IntegrityDelay, phase |-> "new"]}
-  /\ nid' = nid + 2
-  /\ UNCHANGED <<D, ax, msgs, now, starts, rearmed>>
+  /\ \E S \in Dispatch([Cur EXCEPT !.wf = "RUNNING"], [i \in 1..Cardinality(StartTasks) |-> Cmd(SeqOf(StartTasks)[i])], FALSE) :
+        Commit(S)
+  /\ jobs' = NewJob(jobs, "integrity", "", now + IntegrityDelay)
+  /\ seen' = IF DupBudget > hist.dups THEN {Msg("start_workflow", "", 0, "", TRUE, FALSE)} ELSE {}
+  /\ UNCHANGED <<D, msgs, now>>
   /\ ev' = [a |-> "StartWorkflow"]
 
 PtqStep(b) ==
@@ -170,144 +243,208 @@ PtqStep(b) ==
   /\ LET o == Head(b.ops)
          rest == IF Len(b.ops) = 1 THEN ptq \ {b} ELSE (ptq \ {b}) \cup {[b EXCEPT !.ops = Tail(b.ops)]}
      IN /\ ev' = [a |-> "PtqStep", op |-> o.op]
-        /\ CASE o.op = "start_task" ->
-                  /\ msgs' = msgs \cup {[id |-> nid, m |-> "start_task", t |-> o.t, res |-> ""]}
-                  /\ ptq' = rest /\ nid' = nid + 1 /\ UNCHANGED <<wf, tk, ax, jobs>>
-             [] o.op = "run_action" ->
-                  /\ msgs' = msgs \cup {[id |-> nid, m |-> "run_action", t |-> o.t, res |-> ""]}
-                  /\ ptq' = rest /\ nid' = nid + 1 /\ UNCHANGED <<wf, tk, ax, jobs>>
+        /\ ptq' = rest
+        /\ CASE o.op \in {"start_task", "run_action"} ->
+                  /\ msgs' = msgs \cup {WithId(msgs, Msg(o.op, o.t, o.k, "", o.fr, o.w))}
+                  /\ UNCHANGED <<wf, jobs>>
              [] o.op = "check" ->              \* workflow_handler.check_and_complete, own transaction
-                  /\ ptq' = rest /\ UNCHANGED <<tk, ax, msgs, jobs, nid>>
-                  /\ wf' = IF wf # "RUNNING" \/ \E x \in Names : tk[x].state \in {"IDLE", "RUNNING", "WAITING", "DELAYED", "PAUSED"}
-                           THEN wf
-                           ELSE IF \E x \in Names : tk[x].state = "ERROR" /\ ~tk[x].errHandled THEN "ERROR" ELSE "SUCCESS"
+                  /\ wf' = Checked(wf, tk)
+                  /\ UNCHANGED <<msgs, jobs>>
              [] o.op = "sched_refresh" ->      \* task_handler._schedule_if_needed: only jobs not yet captured count
-                  /\ ptq' = rest /\ UNCHANGED <<wf, tk, ax, msgs>>
-                  /\ IF \E j \in jobs : j.func = "refresh" /\ j.t = o.t /\ j.phase = "new"
-                     THEN UNCHANGED <<jobs, nid>>
-                     ELSE /\ jobs' = jobs \cup {[id |-> nid, func |-> "refresh", t |-> o.t, at |-> now, phase |-> "new"]}
-                          /\ nid' = nid + 1
-  /\ UNCHANGED <<D, now, starts, rearmed>>
+                  /\ UNCHANGED <<wf, msgs>>
+                  /\ jobs' = IF \E j \in jobs : j.func = "refresh" /\ j.t = o.t /\ j.phase = "new"
+                             THEN jobs ELSE NewJob(jobs, "refresh", o.t, now)
+  /\ UNCHANGED <<D, tk, ax, seen, backlog, now, hist>>
 
-\* task_handler.run_task, first run
-DeliverStartTask(m) ==
-  /\ m \in msgs /\ m.m = "start_task"
-  /\ msgs' = msgs \ {m}
-  /\ IF tk[m.t].state = "IDLE"
-     THEN /\ tk' = [tk EXCEPT ![m.t].state = "RUNNING"]
-          /\ ax' = [ax EXCEPT ![m.t] = "RUNNING"]
-          /\ ptq' = NewBatch(<<[op |-> "run_action", t |-> m.t]>>)
-          /\ nid' = nid + 1
-          /\ starts' = [starts EXCEPT ![m.t] = @ + 1]
-     ELSE UNCHANGED <<tk, ax, ptq, nid, starts>>          \* a waiting join, or a task that is not IDLE any more
-  /\ UNCHANGED <<D, wf, jobs, now, rearmed>>
-  /\ ev' = [a |-> "DeliverStartTask", t |-> m.t]
+\* task_handler.run_task
+HandleStartTask(m) ==
+  LET t == m.t IN
+  IF m.fr
+  THEN \* RegularTask._run_new: nothing for a waiting (join) command; an IDLE task starts
+       IF ~m.w /\ tk[t].state = "IDLE"
+       THEN {StartAction([Cur EXCEPT !.tk[t].state = "RUNNING"], t)}
+       ELSE CheckAffected(Cur, t)
+  ELSE \* RegularTask._run_existing: refuses a SUCCESS task (MistralError: the transaction rolls back), otherwise sets
+       \* RUNNING whatever the state was and starts a new action
+       IF m.w THEN CheckAffected(Cur, t)
+       ELSE IF tk[t].state \in {"SUCCESS", "none"} THEN {Cur}
+       ELSE {StartAction([Cur EXCEPT !.tk[t].state = "RUNNING",
+                                     !.tk[t].processed = IF tk[t].state = "RUNNING" THEN @ ELSE FALSE], t)}
+\* the executor: runs the action and sends the result; a redelivered request is answered with an error without running
+Outcome(t, k) == LET oc == D.tasks[t].outcome[1] IN IF oc[IF k <= Len(oc) THEN k ELSE Len(oc)] = "ok" THEN "SUCCESS" ELSE "ERROR"
+\* action_handler.on_action_complete: a completed action refuses a second result (ValueError, rollback)
+HandleActionComplete(m) ==
+  IF m.k > Len(ax[m.t]) \/ ax[m.t][m.k] # "RUNNING" THEN {Cur}
+  ELSE CompleteAndCheck([Cur EXCEPT !.ax[m.t][m.k] = m.res], m.t, m.res)
 
-Outcome(t) == IF D.tasks[t].outcome[1][1] = "ok" THEN "SUCCESS" ELSE "ERROR"
-DeliverRunAction(m) ==
-  /\ m \in msgs /\ m.m = "run_action"
-  /\ msgs' = (msgs \ {m}) \cup {[id |-> nid, m |-> "on_action_complete", t |-> m.t, res |-> Outcome(m.t)]}
-  /\ nid' = nid + 1
-  /\ UNCHANGED <<D, wf, tk, ax, ptq, jobs, now, starts, rearmed>>
-  /\ ev' = [a |-> "DeliverRunAction", t |-> m.t]
-
-DeliverActionComplete(m) ==
-  /\ m \in msgs /\ m.m = "on_action_complete"
-  /\ ax[m.t] = "RUNNING"
-  /\ msgs' = msgs \ {m}
-  /\ ax' = [ax EXCEPT ![m.t] = m.res]
-  /\ \E c \in Completion(m.t, m.res, tk, wf) :
-        /\ tk' = c.tk /\ wf' = c.wf /\ ptq' = NewBatch(c.ops)
-        /\ rearmed' = (rearmed \/ Rearms(tk, c.tk))
-  /\ nid' = nid + 1
-  /\ UNCHANGED <<D, jobs, now, starts>>
-  /\ ev' = [a |-> "DeliverActionComplete", t |-> m.t]
+Handle(m, isDup) ==
+  CASE m.m = "start_task" -> /\ \E S \in HandleStartTask(m) : Commit(S)
+                             /\ msgs' = msgs \ {m}
+    [] m.m = "run_action" -> /\ msgs' = (msgs \ {m}) \cup {WithId(msgs \ {m}, Msg("on_action_complete", m.t, m.k, Outcome(m.t, m.k), TRUE, FALSE))}
+                             /\ UNCHANGED <<wf, tk, ax, ptq, backlog, hist>>
+    [] m.m = "on_action_complete" -> /\ \E S \in HandleActionComplete(m) : Commit(S)
+                                     /\ msgs' = msgs \ {m}
+Deliver(m) ==
+  /\ m \in msgs
+  /\ Handle(m, FALSE)
+  /\ seen' = Remember(m)
+  /\ UNCHANGED <<D, jobs, now>>
+  /\ ev' = [a |-> "Deliver", m |-> m.m, t |-> m.t]
+\* redelivery of a message that was delivered before (reliable messaging may deliver twice)
+Dup(c) ==
+  /\ c \in seen /\ hist.dups < DupBudget
+  /\ LET m == [id |-> 0, m |-> c.m, t |-> c.t, k |-> c.k, res |-> c.res, fr |-> c.fr, w |-> c.w]
+     IN /\ CASE c.m = "start_task" -> \E S \in HandleStartTask(m) : Commit([S EXCEPT !.hist.dups = @ + 1]) /\ UNCHANGED msgs
+             \* the executor refuses to run a redelivered request and reports an error SYNCHRONOUSLY: the engine handles
+             \* on_action_complete(error) inside this very step
+             [] c.m = "run_action" -> \E S \in HandleActionComplete([m EXCEPT !.res = "ERROR"]) : Commit([S EXCEPT !.hist.dups = @ + 1]) /\ UNCHANGED msgs
+             \* start_workflow with the id of an existing execution returns that execution
+             [] c.m = "start_workflow" -> Commit([Cur EXCEPT !.hist.dups = @ + 1]) /\ UNCHANGED msgs
+             [] c.m = "on_action_complete" -> \E S \in HandleActionComplete(m) : Commit([S EXCEPT !.hist.dups = @ + 1]) /\ UNCHANGED msgs
+  \* (the synchronous error report of the executor is itself a delivered message that may be delivered again)
+  /\ seen' = IF DupBudget > hist.dups + 1
+             THEN seen \cup (IF c.m = "run_action" THEN {Msg("on_action_complete", c.t, c.k, "ERROR", TRUE, FALSE)} ELSE {})
+             ELSE {}
+  /\ UNCHANGED <<D, jobs, now>>
+  /\ ev' = [a |-> "Dup", m |-> c.m, t |-> c.t, fr |-> c.fr]
 
 JobCapture(j) ==
   /\ j \in jobs /\ j.phase = "new" /\ j.at <= now
   /\ jobs' = (jobs \ {j}) \cup {[j EXCEPT !.phase = "captured"]}
-  /\ UNCHANGED <<D, wf, tk, ax, msgs, ptq, now, nid, starts, rearmed>>
+  /\ UNCHANGED <<D, wf, tk, ax, msgs, seen, ptq, backlog, now, hist>>
   /\ ev' = [a |-> "JobCapture", func |-> j.func]
 JobInvoke(j) ==
   /\ j \in jobs /\ j.phase = "captured"
   /\ ev' = [a |-> "JobInvoke", func |-> j.func]
-  /\ IF j.func = "integrity"
+  /\ LET ran == (jobs \ {j}) \cup {[j EXCEPT !.phase = "ran"]} IN
+     IF j.func = "integrity"
      THEN \* _check_and_fix_integrity: nothing to fix in these runs; re-arms itself while the execution is unfinished
-          /\ jobs' = (jobs \ {j}) \cup {[j EXCEPT !.phase = "ran"]} \cup
-                     (IF wf \in Final THEN {} ELSE {[id |-> nid, func |-> "integrity", t |-> "", at |-> now + 120, phase |-> "new"]})
-          /\ nid' = nid + 1
-          /\ UNCHANGED <<wf, tk, ax, msgs, ptq, starts, rearmed>>
+          /\ jobs' = IF wf \in Final THEN ran ELSE NewJob(ran, "integrity", "", now + 120)
+          /\ UNCHANGED <<wf, tk, ax, ptq, backlog, hist>>
      ELSE \* _refresh_task_state(join)
           LET t == j.t
               ls == JoinLogical(t, tk)
-              done == (jobs \ {j}) \cup {[j EXCEPT !.phase = "ran"]}
-          IN /\ jobs' = done
+          IN /\ jobs' = ran
              /\ IF tk[t].state \in {"none", "RUNNING"} \/ Done(tk[t].state) \/ wf \in Final \/ ls = "WAITING"
-                THEN UNCHANGED <<wf, tk, ax, msgs, ptq, nid, starts, rearmed>>
+                THEN UNCHANGED <<wf, tk, ax, ptq, backlog, hist>>
                 ELSE IF ls = "RUNNING"
                 THEN \* continue_task -> _run_existing: the join starts its action
-                     /\ tk' = [tk EXCEPT ![t].state = "RUNNING"]
-                     /\ ax' = [ax EXCEPT ![t] = "RUNNING"]
-                     /\ ptq' = NewBatch(<<[op |-> "run_action", t |-> t]>>)
-                     /\ nid' = nid + 1
-                     /\ starts' = [starts EXCEPT ![t] = @ + 1]
-                     /\ UNCHANGED <<wf, msgs, rearmed>>
+                     Commit(StartAction([Cur EXCEPT !.tk[t].state = "RUNNING"], t))
                 ELSE \* complete_task(ERROR, 'Failed by tasks: ...') with the usual routing
-                     /\ \E c \in Completion(t, "ERROR", tk, wf) :
-                           /\ tk' = c.tk /\ wf' = c.wf /\ ptq' = NewBatch(c.ops)
-                           /\ rearmed' = (rearmed \/ Rearms(tk, c.tk))
-                     /\ nid' = nid + 1
-                     /\ UNCHANGED <<ax, msgs, starts>>
-  /\ UNCHANGED <<D, now>>
+                     \E S \in CompleteAndCheck(Cur, t, "ERROR") : Commit(S)
+  /\ UNCHANGED <<D, msgs, seen, now>>
 JobDelete(j) ==
   /\ j \in jobs /\ j.phase = "ran"
   /\ jobs' = jobs \ {j}
-  /\ UNCHANGED <<D, wf, tk, ax, msgs, ptq, now, nid, starts, rearmed>>
+  /\ UNCHANGED <<D, wf, tk, ax, msgs, seen, ptq, backlog, now, hist>>
   /\ ev' = [a |-> "JobDelete", func |-> j.func]
 
+(* ---- operator commands (each is one transaction of DefaultEngine) ---- *)
+Spend(S) == [S EXCEPT !.hist.ops = @ + 1]
+\* pause_workflow: PAUSED already -> nothing; RUNNING -> PAUSED; a finished execution refuses (WorkflowException)
+OpPause ==
+  /\ wf # "none" /\ hist.ops < OpBudget /\ "pause" \in OpKinds /\ (NoopOps \/ wf = "RUNNING")
+  /\ Commit(Spend(IF wf = "RUNNING" THEN [Cur EXCEPT !.wf = "PAUSED", !.hist.paused = TRUE] ELSE Cur))
+  /\ UNCHANGED <<D, msgs, seen, jobs, now>>
+  /\ ev' = [a |-> "OpPause"]
+\* resume_workflow: only for a PAUSED execution.  Workflow.resume: RUNNING; commands = RunExistingTask for every IDLE task
+\* + the routing of every task that completed while paused (pause commands dropped); those tasks become processed; then
+\* dispatch (backlog first) - or, when there is nothing at all to dispatch, an inline completion check
+OpResume ==
+  /\ wf # "none" /\ hist.ops < OpBudget /\ "resume" \in OpKinds /\ (NoopOps \/ wf = "PAUSED")
+  /\ IF wf # "PAUSED" THEN Commit(Spend(Cur))
+     ELSE LET idle == {x \in Names : tk[x].state = "IDLE"}
+              unproc == {x \in Names : Done(tk[x].state) /\ ~tk[x].processed}
+              tk1 == [x \in Names |-> IF x \in unproc THEN [tk[x] EXCEPT !.processed = TRUE] ELSE tk[x]]
+              S0 == Spend([Cur EXCEPT !.wf = "RUNNING", !.tk = tk1])
+          IN \E ip \in AnyPerm(idle), up \in AnyPerm(unproc) :
+               LET ex == [i \in 1..Len(ip) |-> [c |-> "existing", t |-> ip[i]]]
+                   RECURSIVE Routes(_)
+                   Routes(k) == IF k > Len(up) THEN <<>> ELSE Cmds(up[k], tk[up[k]].state) \o Routes(k + 1)
+                   cmds == SelectSeq(ex \o Routes(1), LAMBDA c : c.c # "pause")
+               IN IF cmds = <<>> /\ backlog = <<>>
+                  THEN Commit([S0 EXCEPT !.wf = Checked("RUNNING", tk1)])
+                  ELSE \E S \in Dispatch(S0, cmds, TRUE) :
+                          Commit([S EXCEPT !.hist.noopResume = @ \/ (backlog = <<>> /\ \A i \in 1..Len(cmds) : cmds[i].c = "noop")])
+  /\ UNCHANGED <<D, msgs, seen, jobs, now>>
+  /\ ev' = [a |-> "OpResume"]
+\* stop_workflow(state): SUCCESS only from RUNNING (else WorkflowException); ERROR ignored for a PAUSED or finished
+\* execution (KF-C11-1); CANCELLED from RUNNING or PAUSED
+OpStop(s) ==
+  /\ wf # "none" /\ hist.ops < OpBudget /\ "stop" \in OpKinds /\ (NoopOps \/ wf \in {"RUNNING", "PAUSED"})
+  /\ Commit(Spend(CASE s = "SUCCESS" -> IF wf = "RUNNING" THEN [Cur EXCEPT !.wf = "SUCCESS"] ELSE Cur
+                    [] s = "ERROR" -> IF wf = "RUNNING" THEN [Cur EXCEPT !.wf = "ERROR"]
+                                      ELSE [Cur EXCEPT !.hist.stopIgnored = @ \/ (wf = "PAUSED")]
+                    [] s = "CANCELLED" -> IF wf \in {"RUNNING", "PAUSED"} THEN [Cur EXCEPT !.wf = "CANCELLED"] ELSE Cur))
+  /\ UNCHANGED <<D, msgs, seen, jobs, now>>
+  /\ ev' = [a |-> "OpStop", s |-> s]
+
 Enabled == msgs # {} \/ ptq # {} \/ \E j \in jobs : j.phase # "new" \/ j.at <= now
+TickTo(x) ==
+  /\ now' = x
+  /\ UNCHANGED <<D, wf, tk, ax, msgs, seen, ptq, jobs, backlog, hist>>
+  /\ ev' = [a |-> "Tick"]
 Tick ==
   /\ ~Enabled /\ \E j \in jobs : j.at > now
-  /\ now' = CHOOSE x \in {j.at : j \in jobs} : x > now /\ \A j \in jobs : j.at > now => x <= j.at
-  /\ UNCHANGED <<D, wf, tk, ax, msgs, ptq, jobs, nid, starts, rearmed>>
-  /\ ev' = [a |-> "Tick"]
+  /\ TickTo(CHOOSE x \in {j.at : j \in jobs} : x > now /\ \A j \in jobs : j.at > now => x <= j.at)
 
 Next == \/ StartWorkflow
         \/ \E b \in ptq : PtqStep(b)
-        \/ \E m \in msgs : DeliverStartTask(m) \/ DeliverRunAction(m) \/ DeliverActionComplete(m)
+        \/ \E m \in msgs : Deliver(m)
+        \/ \E c \in seen : Dup(c)
         \/ \E j \in jobs : JobCapture(j) \/ JobInvoke(j) \/ JobDelete(j)
+        \/ OpPause \/ OpResume \/ \E s \in Final : OpStop(s)
         \/ Tick
 Spec == /\ Init /\ [][Next]_vars
 FairSpec == Spec /\ WF_vars(Next)
 
 (* ---- the observable projection, in the shape EngineProps expects ---- *)
-ToSeq(S) == CHOOSE s \in AnyPerm(S) : TRUE
-ObsTk == ToSeq({[sid |-> "r/" \o x \o "#0", wf |-> "r", name |-> x, state |-> tk[x].state, next |-> ToSeq(tk[x].next),
-                 isJoin |-> IsJoin(x), info |-> "", wiCount |-> -1, trig |-> <<>>] : x \in {y \in Names : tk[y].state # "none"}})
-ObsAx == ToSeq({[sid |-> "r/" \o x \o "#0@0.0", task |-> "r/" \o x \o "#0", idx |-> 0, state |-> ax[x], accepted |-> ax[x] \in Final,
-                 out |-> ax[x], isSync |-> TRUE, disp |-> 1, hb |-> -1] : x \in {y \in Names : ax[y] # "none"}})
-ObsWf == IF wf = "none" THEN <<>>
-         ELSE <<[sid |-> "r", state |-> wf, parent |-> "", root |-> "r", accepted |-> wf \in Final, output |-> "", ns |-> "",
-                 project |-> "", idx |-> 0, info |-> ""]>>
 Quiet == ~Enabled /\ ~(\E j \in jobs : j.func # "integrity") /\ wf # "none"
-Obs == [wf |-> ObsWf, tk |-> ObsTk, ax |-> ObsAx, pend |-> [quiet |-> Quiet]]
+AllDone == \A x \in Names : tk[x].state = "none" \/ Done(tk[x].state)
 
-(* ---- model-level properties (the EngineProps formulas on the projection, plus liveness) ---- *)
-NoHangM   == Quiet => wf \in Final
-NoWaitingAtRestM == Quiet => \A x \in Names : tk[x].state # "WAITING" \/ wf \in Final
-\* a join starts its action at most once per run - modulo the known finding KF-C04-1 (re-armed join)
-JoinOnceM == rearmed \/ \A x \in Names : starts[x] <= 1
-KF_JoinRearmedReached == rearmed
-\* a join starts only when enough inbound tasks completed and routed to it
-JoinGateM == \A x \in Names : (IsJoin(x) /\ tk[x].state = "RUNNING" /\ ax[x] = "RUNNING") =>
-                LET fed == {i \in Inbound(x) : Done(tk[i].state) /\ x \in tk[i].next}
-                IN rearmed \/ Cardinality(fed) >= (IF D.tasks[x].join = -1 THEN Cardinality(Inbound(x)) ELSE D.tasks[x].join)
-\* finished executions stay finished
+(* ---- model-level properties: the EngineProps formulas on the model's state, modulo the known findings ---- *)
+\* the situations of the known findings, as they appear in a hanging state
+KF_ResumeJoin   == \E x \in hist.resumeJoin : tk[x].state = "WAITING"                    \* KF-C10-1 / KF-C10-6
+KF_NoopResume   == hist.noopResume /\ AllDone                                              \* KF-C10-8
+KF_Rearmed      == hist.rearmed                                                            \* KF-C04-1
+KF_DoubleStart  == hist.existingSent                                                       \* KF-C10-5
+\* C01 / C10: at rest the execution is finished - or PAUSED because somebody asked for it
+NoHangM   == Quiet => (wf \in Final \/ (wf = "PAUSED" /\ hist.paused) \/ KF_ResumeJoin \/ KF_NoopResume)
+NoWaitingAtRestM == Quiet => ((\A x \in Names : tk[x].state # "WAITING") \/ wf \in Final \cup {"PAUSED"} \/ KF_ResumeJoin)
+\* C04: a join starts its action at most once per run - modulo re-arming
+JoinOnceM == KF_Rearmed \/ \A x \in Names : IsJoin(x) => Len(ax[x]) <= 1
+\* C06 / C10: a plain task starts its action once - modulo the double start after resume; redeliveries never start anything
+StartOnceM == KF_DoubleStart \/ \A x \in Names : ~IsJoin(x) => Len(ax[x]) <= 1
+\* C04: a join starts (its first action appears) only when enough inbound tasks completed and routed to it
+JoinGateM == [][\A x \in Names : (IsJoin(x) /\ Len(ax[x]) = 0 /\ Len(ax'[x]) = 1) =>
+                   LET fed == {i \in Inbound(x) : Done(tk'[i].state) /\ x \in tk'[i].next}
+                   IN hist'.rearmed \/ Cardinality(fed) >= (IF D.tasks[x].join = -1 THEN Cardinality(Inbound(x)) ELSE D.tasks[x].join)]_vars
+\* C03 / C11: finished executions stay finished; a result is recorded once; SUCCESS tasks stay SUCCESS (modulo re-arming)
 FinishedFrozenM == [][(wf \in Final) => (wf' = wf)]_vars
+ResultOnceM == [][\A x \in Names : \A k \in 1..Len(ax[x]) : ax[x][k] \in Final => (Len(ax'[x]) >= k /\ ax'[x][k] = ax[x][k])]_vars
+SuccessStickyM == [][\A x \in Names : tk[x].state = "SUCCESS" => (tk'[x].state = "SUCCESS" \/ hist'.rearmed)]_vars
+\* C03: the execution's state changes only along the documented lifecycle
+LegalPairs == {<<"none", "RUNNING">>, <<"RUNNING", "PAUSED">>, <<"RUNNING", "SUCCESS">>, <<"RUNNING", "ERROR">>,
+               <<"RUNNING", "CANCELLED">>, <<"PAUSED", "RUNNING">>, <<"PAUSED", "CANCELLED">>, <<"PAUSED", "ERROR">>}
+\* (resume_workflow of an execution whose tasks all finished while it was PAUSED writes PAUSED -> RUNNING -> final state in
+\*  one transaction: the committed change is the composition of two legal moves)
+LegalWfM == [][(wf' = wf) \/ (<<wf, wf'>> \in LegalPairs) \/ (ev'.a = "OpResume" /\ wf = "PAUSED" /\ wf' \in Final)]_vars
+\* C10: while the execution stays PAUSED no task row comes into existence
+NoNewTasksWhilePausedM == [][(wf = "PAUSED" /\ wf' = "PAUSED") => \A x \in Names : (tk[x].state = "none") = (tk'[x].state = "none")]_vars
+\* C11: after the execution finished no task row comes into existence
+NoNewTasksAfterStopM == [][(wf \in Final) => \A x \in Names : (tk[x].state = "none") = (tk'[x].state = "none")]_vars
+\* C10 / C11: an acknowledged pause / stop takes effect at once (stop(ERROR) on PAUSED: KF-C11-1)
+PauseAckM == [][(ev'.a = "OpPause" /\ wf = "RUNNING") => wf' = "PAUSED"]_vars
+StopAckM  == [][(ev'.a = "OpStop" /\ wf \in {"RUNNING", "PAUSED"} /\ ~(ev'.s = "SUCCESS" /\ wf = "PAUSED")) =>
+                   (wf' = ev'.s \/ (ev'.s = "ERROR" /\ wf = "PAUSED"))]_vars
+\* C06: a redelivered engine message changes nothing observable (the executor answers a redelivered request itself)
+DupNoEffectM == [][(ev'.a = "Dup" /\ ev'.m # "run_action" /\ ~(ev'.m = "start_task" /\ ~ev'.fr)) => (wf' = wf /\ tk' = tk /\ ax' = ax)]_vars
 \* confluence (C02 at model level): every terminal state projects to one and the same outcome
 \* (checked with one TLC worker: the first terminal outcome seen is kept in TLC register 1)
 FinalP == <<wf, [x \in Names |-> <<tk[x].state, tk[x].next, tk[x].errHandled>>], ax>>
 Confluent == Quiet => (IF TLCGet(1) = <<>> THEN TLCSet(1, FinalP) ELSE TLCGet(1) = FinalP)
 Terminates == <>[](wf \in Final)
-TypeOK == wf \in {"none", "RUNNING", "SUCCESS", "ERROR"}
+\* how often the situations of the known findings are reachable (reported in the evidence)
+InDomain == ~hist.multi
+TypeOK == wf \in {"none", "RUNNING", "PAUSED", "SUCCESS", "ERROR", "CANCELLED"}
 =============================================================================
